@@ -170,6 +170,16 @@ def from_desc(t: dict):
     so nothing may depend on the order of the rows.
     """
     tab = _base(t)
+    if t.get("datum"):
+        # the same table with its pseudopressure referenced to a pressure INSIDE the table (what
+        # rescale_pseudopressure produces, and what the shipped oil table looks like): pseudopressure
+        # is defined up to a constant, negative below the datum
+        tab = tab.copy() if isinstance(tab, pd.DataFrame) else {k: np.array(v, copy=True) for k, v in tab.items()}
+        P_ = np.asarray(tab["pressure"], dtype=float)
+        m_ = np.asarray(tab["pseudopressure"], dtype=float)
+        o_ = np.argsort(P_, kind="stable")
+        p_d = P_.min() + float(t["datum"]) * (P_.max() - P_.min())
+        tab["pseudopressure"] = m_ - float(np.interp(p_d, P_[o_], m_[o_]))
     rows = t.get("rows", "ascending")
     if rows == "ascending":
         return tab
@@ -202,7 +212,9 @@ def random_table_desc(rng, consistent_only=False, allow_built=True, max_nodes=40
 
         return {"kind": "built", "comp": wl.gas_composition(rng), "pmax": float(rng.choice([3000.0, 6000.0]))}
     fam = str(rng.choice(FAMILIES))
+    datum = float(rng.uniform(0.05, 0.6)) if rng.random() < 0.15 else None
     return {
+        "datum": datum,
         "kind": "synthetic",
         "family": fam,
         "prm": [float(v) for v in rng.random(3)],
